@@ -34,10 +34,11 @@ def strict_load(text):
     try:
         return Parsers.get_yaml_data(yaml, QuietLog(), _literal(text),
                                      literal=True)
-    except (ReaderError, UnicodeError):
-        # control characters / undecodable bytes (torn writes): Parsers does
-        # not trap these; for every caller here that simply means "not a
-        # loadable document"
+    except (ReaderError, UnicodeError, ValueError):
+        # control characters / undecodable bytes (torn writes), or a scalar
+        # ruamel's own constructor chokes on (e.g. "!!float '5'"): Parsers
+        # does not trap these; for every caller here that simply means "not
+        # a loadable document"
         return None, False
 
 
@@ -52,6 +53,6 @@ def strict_load_all(text):
             if not ok:
                 return docs, False
             docs.append(doc)
-    except (ReaderError, UnicodeError):
+    except (ReaderError, UnicodeError, ValueError):
         return docs, False
     return docs, True
